@@ -227,7 +227,10 @@ LEVEL_TEXT = ("Proved in Coq for all token lists (no size bound): _discard_conte
               "for every soup in which the two counted bracket types nest (discard_exact); _consume_balanced_tokens started "
               "after any strict opener returns exactly the group for every strict-nested soup with '<'/'>' free "
               "(consume_balanced_exact), never consumes or invents tokens outside it (consume_contiguous), and the "
-              "continuation is independent of the soup (region_independence). The model is a hand-written mirror of the two "
+              "continuation is independent of the soup (region_independence). On the consumers' CALL SITES as translated from the code "
+              "on every run (Gen/Dispatch.v): static_assert(...) consumes exactly its parenthesized group for any soup in which "
+              "parentheses nest, __attribute__((...)) and __declspec(...) exactly theirs for every strict-nested soup "
+              "(static_assert_is_skipped_exactly, gcc_attribute_is_skipped_exactly, declspec_is_skipped_exactly). The model is a hand-written mirror of the two "
               "Python functions with tables regenerated from the live class on every run; a differential run (thousands of "
               "balanced/broken/truncated token lists) ties it to the code, and a region search (22 skippable regions x "
               "generated soups through parse_string) covers the un-modelled call sites.")
